@@ -1,4 +1,4 @@
-import GrmVerif.Lemmas.YaccBuild2
+import GrmVerif.Lemmas.YaccBuild7
 import GrmVerif.Lemmas.YaccLex
 import GrmVerif.Extracted
 /-!
@@ -20,25 +20,29 @@ open GrmVerif GrmVerif.YaccBuild
 
 variable {cfg : Cfg} {a : AST} {k : Kind} {g : IGrammar}
 
-/-- **Dense numbering.** Rules and tokens are numbered `0 … len-1` with exactly the source's rules
-plus the added ones (`^`; `~`, `^~` for Eco with implicit tokens) and the source's tokens plus one;
-EVERY per-rule, per-token and per-production table of the object has exactly `rules_len` /
-`tokens_len` / `prods_len` entries — in particular `prod_span`, `action`, `action_span` are defined on
-every `PIdx` (this is what was false before the repair). Missing for the full statement: the exact
-value `prods_len = |source productions| + 1 (+ |implicit tokens| + 2)`; the harness compares it on
-every case (`np` field). -/
-theorem dense_numbering_partial (h : buildGrammar cfg a k = some g) :
+/-- **Dense numbering.** Rules, tokens and productions are numbered `0 … len-1` with exactly the
+source's rules plus the added ones (`^`; `~`, `^~` for Eco with implicit tokens), the source's tokens
+plus one, and the source's productions plus the added ones (`^: S;` — for Eco with implicit tokens
+`^: ^~;`, one per implicit token, the empty one and `^~: ~ S;`, i.e. `|implicit tokens| + 3`); EVERY
+per-rule, per-token and per-production table of the object has exactly `rules_len` / `tokens_len` /
+`prods_len` entries — in particular `prod_span`, `action`, `action_span` are defined on every `PIdx`
+(this is what was false before the repair). `cfgOk` is a property of the three name constants
+(an `example` below shows the extracted ones have it). -/
+theorem dense_numbering (hc : cfgOk cfg = true) (h : buildGrammar cfg a k = some g) :
     g.rulesLen = a.rules.length + addedRules a k ∧ g.tokensLen = a.tokens.length + 1 ∧
+    g.prodsLen = a.prods.length + addedProds a k ∧
     g.tokenPrecs.length = g.tokensLen ∧ g.tokenEpp.length = g.tokensLen ∧
     g.rulesProds.length = g.rulesLen ∧ g.actiontypes.length = g.rulesLen ∧
     g.prods.length = g.prodsLen ∧ g.prodsRules.length = g.prodsLen ∧ g.prodPrecs.length = g.prodsLen ∧
     g.actions.length = g.prodsLen ∧ g.actionSpans.length = g.prodsLen ∧ g.prodSpans.length = g.prodsLen := by
   obtain ⟨us, sp, st, _, hm, _, _, hrn, htn, htp, hte, _, hrp, hat, _⟩ := build_fields h
+  obtain ⟨_, _, _, _, hb⟩ := build_shape hc h
   have hinv := mainLoop_inv _ (Inv (ruleNamesOf cfg a k).length (a.tokens.length + 1))
     (stepRule_inv (mkCtx_mapsOk cfg a k us)) _ _ _ (st0_inv cfg a k) hm
-  refine ⟨?_, ?_, ?_, ?_, ?_, ?_, ?_⟩
+  refine ⟨?_, ?_, ?_, ?_, ?_, ?_, ?_, ?_⟩
   · simp only [IGrammar.rulesLen, hrn]; exact ruleNamesOf_length cfg a k
   · simp [IGrammar.tokensLen, htn]
+  · rw [IGrammar.prodsLen, hb.len, addedShape_length hb.shape]
   · simp [IGrammar.tokensLen, htn, htp]
   · simp [IGrammar.tokensLen, htn, hte]
   · simp only [IGrammar.rulesLen, hrn, hrp]; exact hinv.rpLen
@@ -121,13 +125,10 @@ theorem eof_last_unnamed (h : buildGrammar cfg a k = some g) :
     · rw [htp, List.getElem?_append_left (by simpa using hlt)]; simp [hget, hlt]
     · rw [hte, List.getElem?_append_left (by simpa using hlt)]; simp [hget, hlt]
 
-/-- **The added start rule.** Rule 0 carries a name that no rule of the source has (however the
-source's rules are called: the loop that lengthens `^` always ends with a fresh name), with the empty
-span at 0; a reference to a rule of the source never resolves to rule 0. Missing for the full
-statement (`start_prod = [Rule user_start]` resp. `[Rule ^~]`, rule 0 in no right-hand side of the
-BUILT grammar): the walk through the main loop; the harness compares `start_prod`, `start_rule_idx`
-and every right-hand side on every case. -/
-theorem start_rule_shape_partial (hs : cfg.startRule ≠ []) (h : buildGrammar cfg a k = some g) :
+/-- **The added start rule's name.** Rule 0 carries a name that no rule of the source has (however
+the source's rules are called: the loop that lengthens `^` always ends with a fresh name), with the
+empty span at 0; a reference to a rule of the source never resolves to rule 0. -/
+theorem start_rule_name_fresh (hs : cfg.startRule ≠ []) (h : buildGrammar cfg a k = some g) :
     ∃ nm, g.ruleNames[0]? = some (nm, (0, 0)) ∧ nm = fresh (a.rules.map (·.name)) cfg.startRule ∧
       nm ∉ a.rules.map (·.name) ∧
       ∀ n ∈ a.rules.map (·.name), lastIdx (g.ruleNames.map (·.1)) n ≠ some 0 := by
@@ -143,21 +144,207 @@ theorem start_rule_shape_partial (hs : cfg.startRule ≠ []) (h : buildGrammar c
   simp only [Option.map_some, Option.some.injEq] at this
   exact hfresh (this ▸ hn)
 
-/-- **Per-production precedence** as computed for one production of the source: the precedence of
-its `%prec` token if it has one (a `%prec` token without declared precedence is the panic `none`),
-otherwise the declared precedence of its LAST token symbol — `none` if there is no token symbol or if
-that last token has no declared precedence (earlier tokens are not consulted). Missing for the full
-statement: that `prod_precedence(i)` of the built grammar is this value for source production `i`
-(main-loop walk); the harness compares it on every production. -/
-theorem prod_prec_spec_partial (precs : List (Str × Prec)) (p : AProd) :
+/-- **The added start rule.** With `tgt` the rule the user's `%start` names (a rule of the source,
+numbered after the added ones): the start production is the first added production (`PIdx` =
+number of source productions), it is the only production of rule 0, and it is `^: S;` — for Eco
+with `%implicit_tokens` it is `^: ^~;`, the implicit rule is rule 1, and rule 2 (`^~`) has the single
+production `^~: ~ S;`. Rule 0 occurs in no right-hand side of the built grammar. `refsOk` (the
+`%start` name and every rule symbol name a rule of the AST) is what `complete_and_validate`
+guarantees; without it `A: ^;` would resolve `^` to rule 0. -/
+theorem start_rule_shape (hc : cfgOk cfg = true) (hr : refsOk a = true) (h : buildGrammar cfg a k = some g) :
+    ∃ us sp tgt, a.start = some (us, sp) ∧
+      lastIdx (g.ruleNames.map (·.1)) us = some tgt ∧ addedRules a k ≤ tgt ∧
+      (a.rules[tgt - addedRules a k]?).map (·.name) = some us ∧
+      g.startProd = a.prods.length ∧ g.rulesProds[0]? = some [g.startProd] ∧
+      (match g.implicitRule with
+       | none => g.recs[g.startProd]? = some (addedRec [.rule tgt] 0)
+       | some ir => ir = 1 ∧ g.recs[g.startProd]? = some (addedRec [.rule 2] 0) ∧
+           ∃ q, g.rulesProds[2]? = some [q] ∧ g.recs[q]? = some (addedRec [.rule 1, .rule tgt] 2)) ∧
+      (∀ r ∈ g.recs, Sym.rule 0 ∉ r.rhs) := by
+  obtain ⟨us, tgt, added, low, hb⟩ := build_shape hc h
+  obtain ⟨sp, hstart⟩ := hb.start
+  have ok := mkCtx_ok hc a k us
+  have hR0 := specialNames_length cfg a k
+  have hast := mkCtx_ast cfg a k us
+  have hus := refsOk_start hr hstart
+  obtain ⟨j, hj, hrm⟩ := rmap_user ok hus
+  rw [hb.tgt, hR0] at hrm
+  simp only [Option.some.injEq] at hrm
+  have hpos : 0 < addedRules a k := by unfold addedRules; cases k <;> cases a.implicitTokens <;> simp
+  have hlt : ∀ i, a.prods.length ≤ i → g.recs[i]? = added[i - a.prods.length]? := hb.addedRecs
+  refine ⟨us, sp, tgt, hstart, ?_, by omega, ?_, hb.startProd, ?_, ?_, ?_⟩
+  · rw [hb.names, ← mkCtx_rmap]; exact hb.tgt
+  · have := (lastIdx_lt hj).2
+    rw [hrm, Nat.add_sub_cancel]
+    simpa [userNames] using this
+  · rw [hb.lowRp 0 hpos, hb.startProd]
+    rcases hb.shape with ⟨_, _, _, _, hl⟩ | ⟨_, _, _, _, _, _, _, _, _, hl⟩ <;> rw [hl] <;> rfl
+  · rw [hb.implicitRule, hb.startProd, hlt _ (Nat.le_refl _), Nat.sub_self]
+    rcases hb.shape with ⟨hi, _, _, ha, _⟩ | ⟨its, tis, _, _, hi, _, h3, hm, ha, hl⟩
+    · rw [hi, ha]; rfl
+    · rw [hi, Option.bind_some, rmap_implName hc a k us hi, ha]
+      have hlen : tis.length = its.length := by simpa using (congrArg List.length hm).symm
+      refine ⟨rfl, ecoAdded_first _ _, a.prods.length + its.length + 2, ?_, ?_⟩
+      · rw [hb.lowRp 2 (by omega), hl]; rfl
+      · rw [hlt _ (by omega), ha, show a.prods.length + its.length + 2 - a.prods.length = tis.length + 2 by omega]
+        exact ecoAdded_last _ _
+  · intro r hrm' h0
+    obtain ⟨i, hi⟩ := List.mem_iff_getElem?.mp hrm'
+    by_cases hip : i < a.prods.length
+    · obtain ⟨p, hp⟩ : ∃ p, a.prods[i]? = some p := ⟨a.prods[i], List.getElem?_eq_getElem hip⟩
+      obtain ⟨ridx, r', _, hur, hri⟩ := hb.userRecs i p hp
+      rw [hi] at hri
+      simp only [Option.some.injEq] at hri
+      subst hri
+      rcases resolveSyms_rule_mem _ _ (userRec_rule hur).2.1 h0 with ⟨n, sp', hn, hn0⟩ | ⟨ir, hir, hn0⟩
+      · obtain ⟨j', _, hj'⟩ := rmap_user ok (refsOk_sym hr (List.mem_of_getElem? hp) hn)
+        rw [hn0, hR0] at hj'
+        simp only [Option.some.injEq] at hj'
+        omega
+      · rw [rmap_implName hc a k us hir] at hn0
+        cases hn0
+    · rw [hlt i (by omega)] at hi
+      obtain ⟨rhs, ridx, rfl, ht⟩ := addedShape_added hb.shape r (List.mem_of_getElem? hi)
+      have := ht h0
+      omega
+
+/-- **Per-production precedence** as computed for one production of the source equals the
+declarative `prodPrecSpec`: the precedence of its `%prec` token if it has one (a `%prec` token without
+declared precedence is the panic `none`), otherwise the declared precedence of its LAST token symbol
+— `none` if there is no token symbol or if that last token has no declared precedence (earlier
+tokens are not consulted). -/
+theorem prod_prec_fn_spec (precs : List (Str × Prec)) (p : AProd) :
     prodPrec precs p =
       match p.prec with
       | some n => (assoc precs n).map some
-      | none => some ((lastTok p.syms).bind (assoc precs)) := by
-  unfold prodPrec
-  cases p.prec with
-  | some n => rfl
-  | none => simp only; rw [firstTokPrec_reverse]
+      | none => some ((lastTok p.syms).bind (assoc precs)) :=
+  prodPrec_eq_spec precs p
+
+/-- **`prod_precedence` of the built grammar.** Source production `i` is production `i` of the
+grammar (the construction maps AST production indices 1:1 to `PIdx`), and `prod_precedence(i)` is
+`prodPrecSpec` of that source production (see `prod_prec_fn_spec` for its reading); every added
+production has no precedence. -/
+theorem prod_prec_spec (hc : cfgOk cfg = true) (h : buildGrammar cfg a k = some g) :
+    (∀ (i : Nat) (p : AProd), a.prods[i]? = some p → g.prodPrecs[i]? = prodPrecSpec a.precs p) ∧
+    (∀ i, a.prods.length ≤ i → i < g.prodsLen → g.prodPrecs[i]? = some none) := by
+  obtain ⟨us, tgt, added, low, hb⟩ := build_shape hc h
+  refine ⟨?_, ?_⟩
+  · intro i p hp
+    obtain ⟨ridx, r, _, hur, hri⟩ := hb.userRecs i p hp
+    have := (userRec_rule hur).2.2.1
+    rw [mkCtx_ast, prodPrec_eq_spec] at this
+    rw [this, IGrammar.prodPrecs, List.getElem?_map, hri]; rfl
+  · intro i hi hlt
+    have hri := hb.addedRecs i hi
+    obtain ⟨r, hr⟩ : ∃ r, g.recs[i]? = some r := ⟨g.recs[i], List.getElem?_eq_getElem hlt⟩
+    rw [hr] at hri
+    obtain ⟨rhs, ridx, rfl, _⟩ := addedShape_added hb.shape r (List.mem_of_getElem? hri.symm)
+    rw [IGrammar.prodPrecs, List.getElem?_map, hr]; rfl
+
+/-- **Every source production is imaged faithfully** (no assumption on the AST): production `i` of
+the grammar has as right-hand side the source production's symbols resolved through the rule map
+(last index carrying the name in the grammar's rule names) and the token map, in order, with the
+implicit rule after every token symbol (`resolveSpec`, see also `eco_rewrite_spec`); its action,
+action span and production span are the source's; its rule is a user rule under which it is listed
+in `rule_to_prods`. More generally `prod_to_rule` and `rule_to_prods` agree on EVERY production. -/
+theorem prod_image_spec (hc : cfgOk cfg = true) (h : buildGrammar cfg a k = some g) :
+    (∀ (i : Nat) (p : AProd), a.prods[i]? = some p → ∃ r, g.recs[i]? = some r ∧
+      resolveSpec (lastIdx (g.ruleNames.map (·.1))) (lastIdx (a.tokens.map (·.1))) g.implicitRule p.syms
+        = some r.rhs ∧
+      r.action = p.action.map (·.1) ∧ r.actionSpan = p.action.map (·.2) ∧ r.span = p.span ∧
+      addedRules a k ≤ r.rule) ∧
+    (∀ (i : Nat) (r : PRec), g.recs[i]? = some r → ∃ l, g.rulesProds[r.rule]? = some l ∧ i ∈ l) := by
+  obtain ⟨us, tgt, added, low, hb⟩ := build_shape hc h
+  refine ⟨?_, build_listed h⟩
+  intro i p hp
+  obtain ⟨ridx, r, hlo, hur, hri⟩ := hb.userRecs i p hp
+  obtain ⟨h1, h2, _, h4, h5, h6⟩ := userRec_rule hur
+  refine ⟨r, hri, ?_, h4, h5, h6, by omega⟩
+  rw [resolveSyms_eq_spec (fun ir hir => ⟨1, rmap_implName hc a k us hir⟩), ← hb.implicitRule, mkCtx_rmap,
+    mkCtx_tmap, ← hb.names] at h2
+  exact h2
+
+/-- **Productions in source order.** When the AST's rule names are distinct (they are the keys of an
+`IndexMap`): user rule `j` of the AST is rule `added + j` of the grammar with its name, name span and
+action type, and `rule_to_prods` of it is exactly the rule's `pidxs`, in the AST's order; every source
+production `i` belongs to such a rule whose `pidxs` contain `i`. Together with `prod_image_spec`
+(symbols, actions, spans of production `i` are those of AST production `i`) this fixes the user part
+of the grammar completely. -/
+theorem prods_in_source_order (hc : cfgOk cfg = true) (hn : (a.rules.map (·.name)).Nodup)
+    (h : buildGrammar cfg a k = some g) :
+    (∀ (j : Nat) (r : ARule), a.rules[j]? = some r →
+      g.ruleNames[addedRules a k + j]? = some (r.name, r.nameSpan) ∧
+      g.rulesProds[addedRules a k + j]? = some r.pidxs ∧
+      g.actiontypes[addedRules a k + j]? = some r.actiont) ∧
+    (∀ (i : Nat) (p : AProd), a.prods[i]? = some p → ∃ rec j r, g.recs[i]? = some rec ∧
+      a.rules[j]? = some r ∧ rec.rule = addedRules a k + j ∧ i ∈ r.pidxs) := by
+  obtain ⟨us, tgt, added, low, hb⟩ := build_shape hc h
+  obtain ⟨_, _, _, _, _, _, _, hrn, _⟩ := build_fields h
+  have hlen := (dense_numbering hc h).1
+  have hrpl := (dense_numbering hc h).2.2.2.2.2.1
+  refine ⟨?_, ?_⟩
+  · intro j r hj
+    obtain ⟨h1, h2⟩ := hb.order hn j r hj
+    exact ⟨by rw [hrn, ruleNamesOf_user, hj]; rfl, h1, h2⟩
+  · intro i p hp
+    obtain ⟨rec, hri, _, _, _, _, hlo⟩ := (prod_image_spec hc h).1 i p hp
+    obtain ⟨l, hl, hil⟩ := (prod_image_spec hc h).2 i rec hri
+    have hlt : rec.rule < g.rulesProds.length := (List.getElem?_eq_some_iff.mp hl).1
+    rw [hrpl, hlen] at hlt
+    have hj : rec.rule - addedRules a k < a.rules.length := by omega
+    refine ⟨rec, rec.rule - addedRules a k, a.rules[rec.rule - addedRules a k], hri,
+      List.getElem?_eq_getElem hj, by omega, ?_⟩
+    have := (hb.order hn _ _ (List.getElem?_eq_getElem hj)).1
+    rw [show addedRules a k + (rec.rule - addedRules a k) = rec.rule by omega, hl] at this
+    simp only [Option.some.injEq] at this
+    exact this ▸ hil
+
+/-- **Eco's implicit rule.** For an Eco grammar with `%implicit_tokens` (iterated in the order `its`):
+the implicit rule is rule 1 (`~`), its productions are the `|its| + 1` productions that follow the
+start production, in order `~: T ~;` for each implicit token `T` in iteration order and finally the
+empty production. -/
+theorem implicit_rule_shape (hc : cfgOk cfg = true) (h : buildGrammar cfg a .eco = some g) {its : List Str}
+    (hits : a.implicitTokens = some its) :
+    g.implicitRule = some 1 ∧
+    g.rulesProds[1]? = some (List.range' (a.prods.length + 1) (its.length + 1)) ∧
+    (∀ (j : Nat) (t : Str), its[j]? = some t → ∃ ti, lastIdx (a.tokens.map (·.1)) t = some ti ∧
+      g.recs[a.prods.length + 1 + j]? = some (addedRec [.tok ti, .rule 1] 1)) ∧
+    g.recs[a.prods.length + 1 + its.length]? = some (addedRec [] 1) := by
+  obtain ⟨us, tgt, added, low, hb⟩ := build_shape hc h
+  rcases hb.shape with ⟨_, _, h1, _, _⟩ | ⟨its', tis, _, hits', hi, _, h3, hm, ha, hl⟩
+  · simp [addedRules, hits] at h1
+  · rw [hits] at hits'
+    simp only [Option.some.injEq] at hits'
+    subst hits'
+    have hlen : tis.length = its.length := by simpa using (congrArg List.length hm).symm
+    refine ⟨?_, ?_, ?_, ?_⟩
+    · rw [hb.implicitRule, hi, Option.bind_some, rmap_implName hc a .eco us hi]
+    · rw [hb.lowRp 1 (by omega), hl]; rfl
+    · intro j t hj
+      have hjlt : j < its.length := (List.getElem?_eq_some_iff.mp hj).1
+      have hmj := congrArg (fun l => l[j]?) hm
+      simp only [List.getElem?_map, hj, Option.map_some] at hmj
+      obtain ⟨ti, hti⟩ : ∃ ti, tis[j]? = some ti := ⟨tis[j]'(by omega), List.getElem?_eq_getElem (by omega)⟩
+      rw [hti, Option.map_some, Option.some.injEq, mkCtx_tmap] at hmj
+      refine ⟨ti, hmj, ?_⟩
+      rw [hb.addedRecs _ (by omega), ha, show a.prods.length + 1 + j - a.prods.length = j + 1 by omega]
+      unfold ecoAdded
+      rw [List.getElem?_cons_succ, List.getElem?_append_left (by simp; omega), List.getElem?_map, hti]
+      rfl
+    · rw [hb.addedRecs _ (by omega), ha, show a.prods.length + 1 + its.length - a.prods.length = tis.length + 1 by omega]
+      unfold ecoAdded
+      rw [List.getElem?_cons_succ, List.getElem?_append_right (by simp)]
+      simp
+
+/-- no implicit rule for the other kinds, or for Eco without `%implicit_tokens` -/
+theorem implicit_rule_absent (hc : cfgOk cfg = true) (h : buildGrammar cfg a k = some g)
+    (hk : k ≠ .eco ∨ a.implicitTokens = none) : g.implicitRule = none := by
+  obtain ⟨us, tgt, added, low, hb⟩ := build_shape hc h
+  rcases hb.shape with ⟨hi, _⟩ | ⟨_, _, hk', hits, _⟩
+  · rw [hb.implicitRule, hi]; rfl
+  · rcases hk with hk | hk
+    · exact absurd hk' hk
+    · rw [hk] at hits; cases hits
 
 /-- **Eco rewriting of a right-hand side**: without an implicit rule every symbol is replaced by its
 index; with one, the implicit rule follows every TOKEN symbol (and only those). -/
@@ -244,8 +431,19 @@ theorem ws_unterminated {s : List Char} {p : Nat} (h : parseWs true s = .error (
 
 /-! ### hypotheses are satisfiable / unit tests (labelled as tests, literals only) -/
 
-/-- test: the extracted start-rule constant is non-empty, so `start_rule_shape_partial` applies -/
+/-- test: the extracted start-rule constant is non-empty, so `start_rule_name_fresh` applies -/
 example : Extracted.YACC_START_RULE ≠ [] := by decide
+
+/-- test: the extracted constants `"^"`, `"~"`, `"^~"` satisfy `cfgOk` -/
+example : cfgOk ⟨Extracted.YACC_START_RULE, Extracted.YACC_IMPLICIT_RULE, Extracted.YACC_IMPLICIT_START_RULE⟩ = true := by
+  decide
+
+/-- test: a concrete AST (`%start A  A: 'a';`) satisfies `refsOk`, has distinct rule names, and builds -/
+example : refsOk exampleAst = true ∧ (exampleAst.rules.map (·.name)).Nodup ∧
+    (buildGrammar ⟨[94], [126], [94, 126]⟩ exampleAst .original).isSome = true := by decide
+
+/-- test: an AST whose production references the added start rule's name violates `refsOk` -/
+example : refsOk { exampleAst with prods := [⟨[.rule [94] (4, 5)], none, none, (3, 6)⟩] } = false := by decide
 
 /-- test: `A: 'a'` with a rule that is itself called `^` gets `^^` as the added rule -/
 example : fresh [[94], [65]] [94] = [94, 94] := by decide
